@@ -566,3 +566,6 @@ def run(ctx):
     rule_close_code_reason(ctx)
     rule_onclose_owner(ctx)
     rule_bounded_closing(ctx)
+    # a direct write must not overtake queued frames: otherwise data frames follow our close frame on the wire
+    from .c01 import rule_send_queue
+    rule_send_queue(ctx, "C05.7-close-frame-is-not-overtaken")
